@@ -106,7 +106,7 @@ def r_getitem(tmp, inp):
         return False, 'other form returned aligned metadata'
     if pos is None:
         return res[0] != 'raise', 'unknown name / out-of-range position must raise; observed %s' % res[0]
-    exp = call(lambda: X[rk, pos])
+    exp = call(lambda: X[rk, ck if pform == 'slice' else pos])
     if exp[0] == 'raise':
         return res[0] != 'raise', 'plain indexing raises (%r); sample returned' % (exp[1],)
     if res[0] == 'raise':
@@ -149,7 +149,7 @@ def r_setitem(tmp, inp):
         res = call(lambda: d.__setitem__((rk, ck), item))
         if pos is None:
             return res[0] != 'raise', 'unknown name / out-of-range position must raise on assignment; observed %s' % res[0]
-        exp = call(lambda: X.__setitem__((rk, pos), item))
+        exp = call(lambda: X.__setitem__((rk, ck if ckind == 'slice' else pos), item))
     if exp[0] == 'raise':
         return res[0] != 'raise', 'plain assignment raises; sample accepted it'
     if res[0] == 'raise':
